@@ -19,10 +19,15 @@ vectorised over ALL rows.  What the oracle does not judge (and why) is stated in
 rotation / scaling within SIGN_WINDOW of the tie set of the indicator, frames lacking a Voigt column, names of
 the returned pandas objects, magnitudes outside 1e-140 .. 1e140.
 
+Result dtype (oracle only, small cases whose `frames` flag is set; class result-dtype): on up to 3 rows given as float32 /
+float64 / longdouble / int64 components - as ndarrays, as Series and through the accessor - mises, signed_mises_trace,
+abs_max / max / min_principal and principals keep the floating dtype of the components, int64 gives float64
+(`_other_dtypes` -> out['dtypes'], `_dtype_clause`).  Not run on big batches.
+
 Finding classes that were open findings go through `Prop.known` (mises-int-overflow: assigned only when the
-value equals the harness's own int64 wrap-around evaluation of the formula).  Both C17 classes (mises-cancellation,
-mises-int-overflow) are fixed in /repo (a83078d, 176ec02) and no C17 class is open, so that branch is inert: a hit is
-reported as a violation."""
+value equals the harness's own int64 wrap-around evaluation of the formula).  All three C17 classes (mises-cancellation:
+a83078d, mises-int-overflow: 176ec02, result-dtype: df52b6f - a regression of 176ec02 found by the fix review) are fixed
+in /repo and no C17 class is open, so that branch is inert: a hit is reported as a violation."""
 import itertools
 import json
 import math
@@ -437,7 +442,8 @@ def int64_mises(row):
 
 
 # ------------------------------------------------------------------ result dtype (precision of the input is kept)
-# Functions whose result has the floating dtype of the components (as before commit 176ec02): float32 stays float32.  The
+# Functions whose result has the floating dtype of the components (as in the original code and again since df52b6f;
+# 176ec02 had made them float64): float32 stays float32.  The
 # Tresca family accumulates in `np.zeros(...)` and the abs-max sign is `sgn + int array`, i.e. float64 whatever the input:
 # tresca, signed_tresca_*, signed_mises_abs_max_principal are recorded, not judged.
 KEEPS_DTYPE = ["mises", "signed_mises_trace", "abs_max_principal", "max_principal", "min_principal", "principals"]
@@ -561,7 +567,10 @@ class C17(Prop):
             "with one (thorough: each) of the 6 exact orthogonal matrices; plus per run large batches of 300 - 70000 "
             "(thorough: 257 - 300000) rows reproducible from a seed: column and accessor path on all rows (vectorised relations, "
             "independent eigenvalues), ~60-180 sampled rows incl. block boundaries and the last rows through the scalar path and "
-            "the model; non-trivial = at least one non-zero tensor; distinct by case")
+            "the model; result dtype (oracle only, small cases with frames, not on big batches): up to 3 rows as float32 / float64 / "
+            "longdouble / int64 components given as ndarray, Series and accessor - dtype kept by mises, signed_mises_trace, abs_max / max / "
+            "min_principal, principals (longdouble: mises, signed_mises_trace only), int64 gives float64 from all functions (class result-dtype); "
+            "non-trivial = at least one non-zero tensor; distinct by case")
     ASSUMPTIONS = [
         "numpy.linalg.eigvalsh is modelled by its contract (IsEigTriple: ascending roots of the characteristic polynomial, "
         "proved to exist, to be unique, rotation invariant and to scale with the tensor); the eigenvalue based model "
@@ -590,19 +599,24 @@ class C17(Prop):
         "Voigt columns.  2-D component arrays (n,m) with m > 1 are outside the quantifier (`scalar or column input`): there "
         "`principals` returns the batch axes transposed, (m,n,3) - observed, not judged.  float32 frames are evaluated by numpy in "
         "single precision: compared with 2e-5 x magnitude, for 1e-12 <= max|s_ij| <= 1e12 only",
-        "result dtype (requested by the review of fix 176ec02; the property text is silent on it): the result keeps the floating "
+        "result dtype (requested by the review of fix 176ec02, repaired by /repo df52b6f; the property text is silent on it): the result keeps the floating "
         "dtype of the components - float32 -> float32, float64 -> float64, longdouble -> longdouble with extended-precision values "
         "(mises, signed_mises_trace) - for mises, signed_mises_trace, abs_max / max / min_principal and principals, on the ndarray, "
         "Series and accessor path; int64 components give float64 from every function.  tresca, signed_tresca_* (np.zeros accumulator) "
-        "and signed_mises_abs_max_principal (sign + integer array) return float64 for float32 input as well, before and after 176ec02: "
-        "recorded (distribution.result_dtypes), not judged.  Class result-dtype",
+        "and signed_mises_abs_max_principal (sign + integer array) return float64 for float32 input as well - in the original code, after "
+        "176ec02 and after df52b6f: recorded (distribution.result_dtypes), not judged.  longdouble components are given to mises and "
+        "signed_mises_trace only: the eigenvalue based functions raise TypeError in LAPACK (numpy.linalg has no extended precision).  "
+        "Not exercised: float16, complex, bool, unsigned, object and string components and numpy float32 SCALAR arguments.  Class "
+        "result-dtype (fixed by df52b6f)",
         "a frame that lacks one of the six Voigt columns is not a stress tensor: whether the accessor refuses it is not part of "
         "the property (counted in distribution.reduced_frame, no verdict); names of returned Series / columns likewise (distribution.notes)",
         "model `mises` is the repaired sum-of-squares formula (/repo commit a83078d); over the reals it equals the expanded "
         "formula of the unrepaired code (theorem misesExpanded_eq_mises) and the definition translated from the current "
-        "source (Generated.mises, theorem Bridge.mises_eq).  The conversion of the components to float64 that commit 176ec02 "
-        "put in front of the formula is not modelled (identity on float64 input; integer input is judged by the oracle only), "
-        "and Generated.mises is never run at Float: the Float side of the correspondence is the hand model",
+        "source (Generated.mises, theorem Bridge.mises_eq).  Since df52b6f the source begins with `np.asarray(x) * 1.0` for each "
+        "component - it promotes integer, unsigned and bool kinds to float64 and leaves floating kinds alone (176ec02 had converted "
+        "everything to float64) - and writes every square as np.square; the translator renders this as `s * 1.0` and `x * x`, and "
+        "Bridge.mises_eq removes the factor 1.0 over the reals.  The hand model has no such factor (identity on float64 input; integer "
+        "input is judged by the oracle only), and Generated.mises is never run at Float: the Float side of the correspondence is the hand model",
         "pandas accessor registration / DataFrame column access are glue, checked by K and the oracle only",
     ]
 
@@ -786,7 +800,9 @@ class C17(Prop):
     def _other_dtypes(self, case, allrows, out):
         """integer valued tensors as python ints / int64 columns / int64 frame; float32 frame.  These are compared with a
         tolerance (integer arithmetic is exact where float arithmetic rounds, float32 is single precision), so they are not
-        fed to the bit-exact correspondence.  -> out['ints'] = [(label, i, values)], out['f32'] = (rows32, w, vals, plain)"""
+        fed to the bit-exact correspondence.  -> out['ints'] = [(label, i, values)], out['f32'] = (rows32, w, vals, plain),
+        out['dtypes'] = ([(given dtype, expected result dtype, result_dtypes(...))], longdouble_mises(...) or None) for up to 3 rows
+        (None when the case has no frames): what `_dtype_clause` judges"""
         E = eqs()
         n = out["n"]
         ints = []
